@@ -10,6 +10,7 @@ var _ chord.PrefixKV = (*MemoryKV)(nil)
 
 func (m *MemoryKV) PrefixAppend(ctx context.Context, prefix []byte, child []byte) error {
 	v, _ := m.fetchVal(prefix)
+	verifPoint("mem.fetched")
 
 	if !v.children.Add(string(child)) {
 		return chord.ErrKVPrefixConflict
@@ -20,6 +21,7 @@ func (m *MemoryKV) PrefixAppend(ctx context.Context, prefix []byte, child []byte
 
 func (m *MemoryKV) PrefixList(ctx context.Context, prefix []byte) ([][]byte, error) {
 	v, _ := m.fetchVal(prefix)
+	verifPoint("mem.fetched")
 
 	children := make([][]byte, 0)
 	v.children.Range(func(value string) bool {
@@ -32,12 +34,14 @@ func (m *MemoryKV) PrefixList(ctx context.Context, prefix []byte) ([][]byte, err
 
 func (m *MemoryKV) PrefixContains(ctx context.Context, prefix []byte, child []byte) (bool, error) {
 	v, _ := m.fetchVal(prefix)
+	verifPoint("mem.fetched")
 
 	return v.children.Contains(string(child)), nil
 }
 
 func (m *MemoryKV) PrefixRemove(ctx context.Context, prefix []byte, needle []byte) error {
 	v, _ := m.fetchVal(prefix)
+	verifPoint("mem.fetched")
 
 	v.children.Remove(string(needle))
 
